@@ -389,7 +389,7 @@ Ltac rh_start G :=
   cbn [rh_loop];
   rewrite (firstn_app_exact 512) by exact GL;
   rewrite (skipn_app_exact 512) by exact GL;
-  rewrite GL; change (Nat.ltb 512 512) with false; cbv beta iota;
+  rewrite GL; change (Nat.eqb 512 0) with false; change (Nat.ltb 512 512) with false; cbv beta iota;
   rewrite GZ, GV, GC; cbn [negb]; cbv beta iota.
 
 Lemma rh_step_K f h s fl out sz buf s2 :
